@@ -161,9 +161,13 @@ pub fn svgdx_doc(rng: &mut Rng, with_root: bool) -> String {
         c.push_str("/>\n");
         body.push_str(&c);
     }
+    // an embedded real SVG subtree, possibly the very first element of the document body
+    let embedded = |rng: &mut Rng| format!("  <svg xmlns=\"http://www.w3.org/2000/svg\" {}><rect width=\"3\" height=\"3\" {}/><!--{}--></svg>\n", in_attr(rng, "viewBox", "0 0 3 3"), hattr(rng, "data-e", 3), comment_text(rng));
+    if rng.chance(1, 8) { body = embedded(rng) + &body; }
     for i in 0..n {
         let xy = format!("{} {}", 12 * i, rng.below(30));
-        match rng.below(10) {
+        match rng.below(11) {
+            10 => body.push_str(&embedded(rng)),
             0 => body.push_str(&format!("  <rect {} {} {}/>\n", in_attr(rng, "xy", &xy), in_attr(rng, "wh", "10 6"), hattr(rng, "text", 6))),
             1 => body.push_str(&format!("  <text {}>{}</text>\n", in_attr(rng, "xy", &xy), htext(rng, 6))),
             2 => body.push_str(&format!("  <rect {} {}><![CDATA[{}]]></rect>\n", in_attr(rng, "xy", &xy), in_attr(rng, "wh", "8"), hostile(rng, 5).replace("]]>", "]] >"))),
